@@ -26,7 +26,9 @@ Inductive outcome := ODone | OPanic | OAbort.
 
 Inductive cop := CLogsNow | CLogsWait | CPort | CExec | CPanic.
 Inductive tstep := SStart (body : list cop) | SShell | SSbom (closure_panics : bool).
-Inductive pre_kind := PreOk | PrePanic.
+(* PreNoSpawn: no preprocessor runs; the pack executable cannot be started at all (execve fails,
+   e.g. E2BIG), so build_internal panics without any command having been issued *)
+Inductive pre_kind := PreOk | PrePanic | PreNoSpawn.
 Record bcfg := mkB { b_pre : option pre_kind; b_expect_success : bool }.
 
 Inductive tbody :=
@@ -120,7 +122,7 @@ Section Run.
   Definition run_build_with (k : st -> st * outcome) (img : nat) (cfg : bcfg) (s : st) : st * outcome :=
     let '(s0, t_app) := match b_pre cfg with Some _ => let '(x, t) := mktemp s in (x, Some t) | None => (s, None) end in
     match b_pre cfg with
-    | Some PrePanic => (drop_res img (rmtemp_opt t_app s0), OPanic)
+    | Some PrePanic | Some PreNoSpawn => (drop_res img (rmtemp_opt t_app s0), OPanic)
     | _ =>
         let '(s1, t_bp) := mktemp s0 in
         let '(s2, ok) := cmd (EPack img) s1 in
